@@ -47,7 +47,7 @@ def make_plan(seed: int, tier: str) -> dict:
     if st.bernoulli(0.5):
         cfg = fitsim.gen_fit_cfg(rng.stream("world"), max_iter=8 if tier == "quick" else 25)
         return {"seed": seed, "tier": tier, "engine": "fitsim_c08", "type": "fit", "world": cfg}
-    kinds = ["joint_uni", "joint_multi", "joint_nosrc", "joint_uni", "joint_multi", "logistic_binary", "logistic_diag", "linear_scalar", "shared_speed"]
+    kinds = ["joint_uni", "joint_multi", "joint_nosrc", "joint_ev2", "joint_ev2", "joint_ev2_nosrc", "logistic_binary", "logistic_diag", "linear_scalar", "shared_speed"]
     cfg = stepsim.gen_world_cfg(rng.stream("world"), kinds=kinds)
     steps = []
     for i in range(st.randint(3, 8 if tier == "quick" else 12)):
